@@ -39,7 +39,7 @@ class TlcResult:
     cmd: str = ""
 
 
-_PRINT_RE = re.compile(r'^<<"(\w+)"')
+_PRINT_RE = re.compile(r'^<<\s*"(\w+)"')
 
 
 def _parse_tla_value(s: str):
@@ -167,12 +167,21 @@ def run_tlc(module: str, cfg_text: str, *, name: str, workers: int = 1, env: dic
     m = re.search(r"depth of the complete state graph search is (\d+)", out)
     if m:
         res.depth = int(m.group(1))
-    for line in out.splitlines():
+    lines = out.splitlines()
+    k = 0
+    while k < len(lines):
+        line = lines[k]
         if _PRINT_RE.match(line):
+            # TLC pretty-prints long tuples over several lines: gather until << >> balance
+            buf = line
+            while buf.count("<<") > buf.count(">>") and k + 1 < len(lines):
+                k += 1
+                buf += " " + lines[k]
             try:
-                res.prints.append(_parse_tla_value(line))
+                res.prints.append(_parse_tla_value(buf))
             except Exception:
-                res.prints.append(line)
+                res.prints.append(buf)
+        k += 1
     for m in re.finditer(r"Invariant (\w+) is violated", out):
         res.violated.append(m.group(1))
     for m in re.finditer(r"Action property (\w+) is violated", out):
